@@ -664,4 +664,13 @@ theorem C11_src_failfast (n : Nat) (h : Heap) (e : EventOf Ref) :
   rw [hg]
   exact ⟨_, ffInterp_ref e.status, by simp [deliver]⟩
 
+open TTV.DecoSrc in
+/-- **`StreamTagger.__init__` is the code's**: `add` and `discard` are snapshotted (`frozenset(...)` of whatever iterable was
+passed - a set the caller goes on using, a list, a one-shot iterator) when the tagger is made; the tagger node of the model
+carries these values and nothing the caller does to its objects afterwards reaches it -/
+theorem C11_src_tagger_init (add discard : List Nat) (ts : List Dec) :
+    tiInterp add discard ts Generated.DecoSrc.taggerInit none none false = some (.tagger add discard ts) := by
+  have hg : Generated.DecoSrc.taggerInit = refTaggerInit := by decide
+  rw [hg]; rfl
+
 end TTV.Props.C11
